@@ -401,6 +401,45 @@ static void cbawait_stack_case(seqx::Runner &R, int outcome, size_t initial_stat
     R.end(true);
 }
 
+// ------------------------------------------------------------------------------------------------ family F7: moved frame storage
+// the non-heap policy object itself may be moved (its owner relocated): the warm block moves with it, frames created in
+// the new object still cost nothing
+static void moved_store_case(seqx::Runner &R, int how) {
+    std::ostringstream d;
+    d << "F7 frame storage moved by " << (how ? "move-assignment" : "move-construction") << " between two programs";
+    if (!R.next_case_named(d.str())) return;
+    R.begin(d.str());
+    uint64_t n = 0;
+    {
+        Store a, c;
+        a.alloc(2048);
+        int seen = 0;
+        {
+            cocls::future<int> f;
+            cocls::promise<int> p = f.get_promise();
+            f1_waiter<int>(a, f, &seen).detach();
+            p(1);
+        }
+        Store b(how ? Store() : std::move(a));
+        if (how) b = std::move(a);
+        region_begin();
+        {
+            cocls::future<int> f;
+            cocls::promise<int> p = f.get_promise();
+            f1_waiter<int>(b, f, &seen).detach();
+            p(1);
+        }
+        n = region_allocs();
+        if (seen != 1) R.fail("noalloc/harness", "waiter not released");
+        (void)c;
+    }
+    if (n) R.fail("noalloc/moved-storage", "%lu dynamic allocations for a frame placed in a warm storage object after the object was moved", (unsigned long)n);
+    R.step();
+    R.state(seqx::hash_str(d.str()));
+    R.outcome(n);
+    R.end(true);
+}
+
 }  // namespace
 
 void seqx_run(seqx::Runner &R, const std::string &tier) {
@@ -423,6 +462,8 @@ void seqx_run(seqx::Runner &R, const std::string &tier) {
                             f1_case<Big>(R, "struct32", nco, nh, cb, out, false, prebuilt);
                     }
     mutex_case(R);
+    moved_store_case(R, 0);
+    moved_store_case(R, 1);
     for (int out = 0; out < 3; out++)
         for (size_t init : {(size_t)0, (size_t)32, (size_t)4000}) cbawait_stack_case(R, out, init);
     for (int n = 0; n <= 4; n++)
